@@ -556,5 +556,13 @@ def run(ctx):
 
 def replay(ctx, doc):
     mm = get_mm()
+    if doc.get("engine") == "HIST" and doc.get("history"):
+        # result-aliasing history: the whole (short) history is re-run in a fresh process
+        import multiprocessing as _mp
+        impl.converter()
+        with _mp.get_context("fork").Pool(1, maxtasksperchild=1) as pool:
+            n, vs = pool.map(_aliasing_task, [0])[0]
+        hit = [v.what for v in vs if v.site == doc.get("root")] or [v.what for v in vs]
+        return "; ".join(hit[:2]) or None
     st, out = check(mm, doc["root"], doc["input"])
     return str(out[:3]) if out else None
